@@ -395,6 +395,26 @@ pub fn gen_file(rng: &mut Rng, n: usize, thorough: bool) -> Vec<Case> {
         let (b, what) = corrupt(rng, &fc);
         out.push((format!("file any {} {}", q, hex(&b)), format!("clean=0|corrupt={}", what)));
     }
+    // nothing in the format reserves section-header slot 0 for the parser: every kind of table section once *in slot 0*
+    // (its header copied over the null header, its old slot turned into SHT_NULL — still one section of each kind)
+    for _ in 0..2 {
+        let fc = rand_object_kind(rng, true, false);
+        if fc.obj.ext_shnum || fc.obj.ext_phnum || fc.obj.ext_shstrndx || fc.built.shnum < 2 { continue; }
+        let entsz = if fc.obj.is64 { 64usize } else { 40 };
+        let shoff = fc.built.shoff as usize;
+        let q = fc.queries.join(",");
+        for k in 1..(fc.built.shnum as usize) {
+            let at = shoff + k * entsz;
+            if at + entsz > fc.built.bytes.len() { break; }
+            let ty = get(&fc.built.bytes[at + 4..at + 8], fc.obj.le, 4) as u32;
+            if ![SHT_SYMTAB, SHT_DYNSYM, SHT_DYNAMIC, SHT_HASH, SHT_GNU_HASH, SHT_GNU_VERSYM, SHT_GNU_VERNEED, SHT_GNU_VERDEF].contains(&ty) { continue; }
+            let mut b = fc.built.bytes.clone();
+            let hdr: Vec<u8> = b[at..at + entsz].to_vec();
+            b[shoff..shoff + entsz].copy_from_slice(&hdr);
+            crate::enc::put_at(&mut b, at + 4, fc.obj.le, 4, SHT_NULL as u64);
+            out.push((format!("file any {} {}", q, hex(&b)), format!("clean=0|slot0={}", ty)));
+        }
+    }
     // random bytes behind a valid ident
     for _ in 0..n / 4 + 4 {
         let is64 = rng.below(2) == 0;
